@@ -3,6 +3,7 @@
 package main
 
 import (
+	"sync"
 	"encoding/json"
 	"math"
 	"os"
@@ -172,8 +173,48 @@ func curvesEval(in curvesIn, root curves.SpeedCurve, set func(curvesSens), ev cu
 				o.Mvals = append(o.Mvals, c.CurrentValue())
 			}
 		}
+		// Several fans may share one function curve, and every fan's control loop evaluates it from its own
+		// goroutine. With the sensors unchanged (equal temperatures T <= T) all of them must see the value
+		// just observed: a concurrent evaluation that returns anything else is reported as kind 3 (the model
+		// never produces it, and the monotonicity observer requires kind 0). Stateless graphs only.
+		if o.Kind == 0 && curvesStateless(in) {
+			bad := make(chan int, 8)
+			var wg sync.WaitGroup
+			for g := 0; g < 4; g++ {
+				wg.Add(1)
+				go func() {
+					defer wg.Done()
+					for k := 0; k < 60; k++ {
+						var v2 int
+						var e2 error
+						if p := catch(func() { v2, e2 = root.Evaluate() }); p != "" || e2 != nil || v2 != v {
+							select {
+							case bad <- v2:
+							default:
+							}
+							return
+						}
+					}
+				}()
+			}
+			wg.Wait()
+			select {
+			case v2 := <-bad:
+				o.Kind, o.Val = 3, v2
+			default:
+			}
+		}
 	}
 	return o
+}
+
+func curvesStateless(in curvesIn) bool {
+	for _, n := range in.Nodes {
+		if n.Kind != "fn" && n.Kind != "lin" && n.Kind != "linear" && n.Kind != "steps" {
+			return false
+		}
+	}
+	return true
 }
 
 // ---- Coq rendering ----
